@@ -383,6 +383,46 @@ class Interp:
                 raise
             else:
                 self.exec_block(s.orelse, env, fn, depth)
+        elif isinstance(s, ast.With):
+            # context managers that are objects of package classes: __enter__ on the way in, __exit__ on every way out (normal
+            # end, return / break / continue, an exception - which goes on unless __exit__ answers with a true value)
+            entered = []
+            try:
+                for item in s.items:
+                    cm = self.eval(item.context_expr, env, fn, depth)
+                    if not isinstance(cm, Obj):
+                        raise Undecided('context manager that is no object of a package class')
+                    m_in, m_out = self.prog.lookup_method(cm.cls, '__enter__'), self.prog.lookup_method(cm.cls, '__exit__')
+                    if m_in is None or m_out is None:
+                        raise Undecided('context manager without __enter__ / __exit__')
+                    val = self.call_function(m_in, [], {}, self_val=cm, depth=depth + 1)
+                    entered.append((cm, m_out))
+                    if item.optional_vars is not None:
+                        self.assign(item.optional_vars, val, env, fn, depth)
+                self.exec_block(s.body, env, fn, depth)
+            except Raised as exc:
+                swallowed = False
+                while entered:
+                    cm, m_out = entered.pop()
+                    r_ = self.call_function(m_out, [Marker(('exctype', exc.name)), Marker(('excobj', exc.name)), Marker(('traceback',))], {},
+                                            self_val=cm, depth=depth + 1)
+                    if r_ is not None and self.truth(r_):
+                        swallowed = True
+                        break
+                if not swallowed:
+                    raise
+                while entered:
+                    cm, m_out = entered.pop()
+                    self.call_function(m_out, [None, None, None], {}, self_val=cm, depth=depth + 1)
+            except (_Return, _Break, _Continue):
+                while entered:
+                    cm, m_out = entered.pop()
+                    self.call_function(m_out, [None, None, None], {}, self_val=cm, depth=depth + 1)
+                raise
+            else:
+                while entered:
+                    cm, m_out = entered.pop()
+                    self.call_function(m_out, [None, None, None], {}, self_val=cm, depth=depth + 1)
         elif isinstance(s, (ast.FunctionDef,)):
             nf = fn.nested.get(s.name)
             if nf is None:
@@ -392,6 +432,12 @@ class Interp:
             for t in s.targets:
                 if isinstance(t, ast.Subscript):
                     c = self.eval(t.value, env, fn, depth)
+                    if isinstance(t.slice, ast.Slice):
+                        parts_ = [self.eval(x_, env, fn, depth) if x_ is not None else None for x_ in (t.slice.lower, t.slice.upper, t.slice.step)]
+                        if not isinstance(c, list) or not all(x_ is None or (isinstance(x_, int) and not isinstance(x_, bool)) for x_ in parts_):
+                            raise Undecided('delete of a slice')
+                        del c[slice(*parts_)]
+                        continue
                     k = self.eval(t.slice, env, fn, depth)
                     try:
                         del c[k]
@@ -399,8 +445,13 @@ class Interp:
                         raise Raised(type(e_).__name__)
                     except TypeError:
                         raise Undecided('delete')
+                elif isinstance(t, ast.Name):
+                    env.pop(t.id, None)         # `del x`: the name is unbound from here on
+                elif isinstance(t, (ast.Tuple, ast.List)) and all(isinstance(x_, ast.Name) for x_ in t.elts):
+                    for x_ in t.elts:
+                        env.pop(x_.id, None)
                 else:
-                    raise Undecided('delete of a name')
+                    raise Undecided('delete of an attribute')
         elif isinstance(s, (ast.Import, ast.ImportFrom, ast.Global, ast.Nonlocal)):
             raise Undecided(type(s).__name__)
         else:
@@ -477,7 +528,7 @@ class Interp:
     def truth(self, v: Any) -> bool:
         if isinstance(v, GenList):
             return True             # an iterator object, whatever is left in it
-        if v is None or isinstance(v, (bool, int, str, list, tuple, set, frozenset, dict)):
+        if v is None or isinstance(v, (bool, int, float, str, bytes, list, tuple, set, frozenset, dict)):
             return bool(v)
         if isinstance(v, (Atom, EnumV, ClassRef, FuncRef)):
             return True
@@ -1192,7 +1243,20 @@ class Interp:
             items = self.iterate(args[0])
             key = kwargs.get('key')
             if key is not None:
-                raise Undecided('sorted with a key')
+                # a key function whose values are plain comparable constants (numbers, booleans, strings, tuples of those): the stable sort
+                def plain(v_):
+                    return isinstance(v_, (bool, int, float, str)) or (isinstance(v_, tuple) and all(plain(x_) for x_ in v_))
+                keyed = []
+                for x_ in items:
+                    kv = self.apply(key, [x_], {}, None, fn, depth + 1)
+                    if kv is None or not plain(kv):
+                        raise Undecided('sorted with a key that is no plain constant')
+                    keyed.append((kv, x_))
+                try:
+                    keyed.sort(key=lambda t_: t_[0], reverse=bool(kwargs.get('reverse', False)))
+                except TypeError:
+                    raise Undecided('sorted with keys of mixed types')
+                return [x_ for _k, x_ in keyed]
             # the order of names is not part of the model: any fixed order stands for "sorted"
             try:
                 return sorted(items, key=lambda x: (x.name if isinstance(x, Atom) else str(x)))
